@@ -297,6 +297,19 @@ impl Sub for Duration {
         rhs.normalize();
         match self.centuries.checked_sub(rhs.centuries) {
             None => {
+                if self.centuries >= 0 {
+                    // Overflowed on the positive side: the difference is still representable if
+                    // the century count overflows by exactly one and the nanoseconds borrow it.
+                    if i32::from(self.centuries) - i32::from(rhs.centuries) == i32::from(i16::MAX) + 1
+                        && self.nanoseconds < rhs.nanoseconds
+                    {
+                        return Self::from_parts(
+                            i16::MAX,
+                            self.nanoseconds + (NANOSECONDS_PER_CENTURY - rhs.nanoseconds),
+                        );
+                    }
+                    return Self::MAX;
+                }
                 // Underflowed, so we've hit the min
                 return Self::MIN;
             }
